@@ -4,6 +4,7 @@ import (
 	"context"
 	"fmt"
 	"math/big"
+	"strings"
 
 	"verifharness/internal/asm"
 	"verifharness/internal/impl"
@@ -267,11 +268,7 @@ func cmdCancelRun(args []string) error {
 			}
 		}
 	}
-	out := ""
-	for _, l := range sb {
-		out += l + "\n"
-	}
-	if err := writeFile(c.out, "cases.txt", out); err != nil {
+	if err := writeFile(c.out, "cases.txt", strings.Join(sb, "\n")+"\n"); err != nil {
 		return err
 	}
 	if err := writeJSON(c.out, "cases.json", cases); err != nil {
